@@ -286,6 +286,10 @@ func projDeliver(d *astits.DemuxerData) M {
 	e := M{"ev": "deliver", "pid": int(d.PID)}
 	js, _ := json.Marshal(d)
 	e["dg"] = digest(js)
+	c := *d
+	c.FirstPacket = nil
+	cjs, _ := json.Marshal(&c)
+	e["cdg"] = digest(cjs) // content only: the unit itself, without the first packet's header / adaptation field
 	fp := d.FirstPacket
 	if fp != nil {
 		e["fp_pusi"] = fp.Header.PayloadUnitStartIndicator
